@@ -458,14 +458,53 @@ def r4(ctx):
     ctx.check(len(calls) == 1 and "sanitize_variable_names(" in norm(calls[0].args[0]), "C04.R4", "the parser normalises Python fragments with format_expr", sp.where,
               ctx.construct(sp, text="format_expr"), "sanitize_python_code must return format_expr(sanitize_variable_names(...))")
     se = P.func("formulaic.utils.stateful_transforms.stateful_eval")
-    keys = [s for s in ast.walk(se.node) if isinstance(s, ast.Assign) and isinstance(s.targets[0], ast.Subscript) and norm(s.targets[0].value) == "stateful_nodes"]
-    ok = len(keys) == 1 and norm(keys[0].targets[0].slice) == "format_expr(node)"
+    keyexprs = []
+    for lp_ in [x for x in walk_no_nested(se.node) if isinstance(x, ast.For) and norm(x.iter) == "ast.walk(code)"]:
+        for c_ in ast.walk(lp_):
+            if isinstance(c_, ast.Call) and isinstance(c_.func, ast.Attribute) and c_.func.attr in ("append", "setdefault") and c_.args:
+                a0 = c_.args[0]
+                keyexprs.append(norm(a0.elts[0]) if isinstance(a0, ast.Tuple) and a0.elts else norm(a0))
+            if isinstance(c_, ast.Assign) and isinstance(c_.targets[0], ast.Subscript):
+                keyexprs.append(norm(c_.targets[0].slice))
+    ok = "format_expr(node)" in keyexprs
     ctx.check(ok, "C04.R4", "stateful_eval keys transform state with the same normaliser", se.where, ctx.construct(se, text="state key"),
-              f"state key is `{norm(keys[0].targets[0].slice) if keys else None}`; expected format_expr(node)")
+              f"state key expressions are {keyexprs}; expected format_expr(node)")
     t = norm(se.node)
     ok = "if name not in state:" in t and "state[name] = {}" in t and "__FORMULAIC_STATE__[\"{name}\"]" in t.replace("\\'", "'") or "__FORMULAIC_STATE__[" in t
     ctx.check(ok, "C04.R4", "a transform's state dict is created once per key and handed to the call by that key", se.where, ctx.construct(se, text="state dict per key"),
               "state[name] must be created only when absent and passed as _state")
+    # every stateful call found is instrumented: the collection keeps ALL occurrences (the same call may appear twice in one factor)
+    coll = [lp for lp in walk_no_nested(se.node) if isinstance(lp, ast.For) and norm(lp.iter) == "ast.walk(code)"]
+    ok = False
+    cname = None
+    if coll:
+        for st in ast.walk(coll[0]):
+            if isinstance(st, ast.Expr) and isinstance(st.value, ast.Call) and isinstance(st.value.func, ast.Attribute) and st.value.func.attr == "append":
+                base = st.value.func.value
+                while isinstance(base, (ast.Call, ast.Attribute)):
+                    base = base.func.value if isinstance(base, ast.Call) and isinstance(base.func, ast.Attribute) else getattr(base, "value", None)
+                    if base is None:
+                        break
+                if isinstance(base, ast.Name):
+                    ok, cname = True, base.id
+    ctx.check(ok, "C04.R4", "stateful_eval keeps every occurrence of a stateful call (appends, never overwrites by key)", se.where, ctx.construct(se, text="collect stateful nodes"),
+              "stateful calls are collected with a keyed store (`nodes[key] = node`): of several identical calls in one factor only the last is handed `_state`, the "
+              "others re-fit on new data")
+    inst = [lp for lp in walk_no_nested(se.node) if isinstance(lp, ast.For) and cname and cname in norm(lp.iter) and lp not in coll]
+    kws = sorted(const_kw.args[0].value for lp in inst for const_kw in ast.walk(lp) if isinstance(const_kw, ast.Call) and norm(const_kw.func) == "ast.keyword" and const_kw.args and isinstance(const_kw.args[0], ast.Constant))
+    ctx.check(kws == ["_context", "_metadata", "_spec", "_state"], "C04.R4", "each collected call is given _context, _metadata, _state and _spec", se.where,
+              ctx.construct(se, text="instrument"), f"keywords injected: {kws}")
+    # the state key identifies the ORIGINAL expression: text that went through sanitize_variable_names (non-injective: every non-word
+    # character becomes `_`) must be mapped back through the alias table before it is used as an identity, as the parser's normaliser does
+    spc = P.func("formulaic.parser.algos.sanitize_tokens.sanitize_python_code")
+    back_parser = any(isinstance(x, ast.While) and norm(x.test) == "aliases" and "expr.replace(alias" in norm(x) for x in ast.walk(spc.node))
+    ctx.check(back_parser, "C04.R4", "the parser's normaliser maps sanitised names back to the quoted originals", spc.where, ctx.construct(spc, text="alias back-substitution"),
+              "sanitize_python_code must undo the aliasing before the text becomes a factor expression")
+    uses_aliases_for_key = any(isinstance(x, (ast.For, ast.While)) and "aliases" in norm(getattr(x, "iter", getattr(x, "test", ast.Constant(0)))) and "name" in norm(x) and "replace" in norm(x)
+                               for x in ast.walk(se.node))
+    ctx.check(uses_aliases_for_key, "C04.R4", "the transform-state key is mapped back through the alias table (distinct quoted names keep distinct keys)", se.where,
+              ctx.construct(se, text="state key from sanitised text"),
+              "stateful_eval keys the state with the SANITISED call text: `scale(`a b`)` and `scale(`a.b`)` both become `scale(a_b)` and share one state entry")
     ev = P.func(MAT + "._evaluate")
     c = [c for c in ast.walk(ev.node) if isinstance(c, ast.Call) and dotted(c.func) == "stateful_eval"]
     sefn = se.node
